@@ -1504,7 +1504,7 @@ func ifaceMeasureIter(i *Iter) int {
 
 
 //@ func (*Iter).FindElement
-//@   props C05 C19
+//@   props C05 C19 C12
 //@   requires iterOK(i) && i.tape.Strings != nil
 //@   invariant 0 iterOK(&cp) && cp.tape.Strings != nil
 //@   decreases 0 marshalMeasure(&cp)
